@@ -77,7 +77,7 @@ Section Q.
 
   Lemma term_in_dom t : flat_free t = true -> forall b b' v, in_dom b -> In (b', v) (eval_term t b) -> in_dom b'.
   Proof.
-    induction t as [w|x|m t IH|id t IH]; intros F b b' v D; cbn [EvalPure.eval_term]; cbn [flat_free] in F; try discriminate.
+    induction t as [w|x|m t IH|id t IH|id t IH]; intros F b b' v D; cbn [EvalPure.eval_term]; cbn [flat_free] in F; try discriminate.
     - intros [H|[]]; injection H as <- _; exact D.
     - destruct (lookup b x) eqn:L.
       + intros [H|[]]; injection H as <- _; exact D.
